@@ -220,13 +220,12 @@ func (e *Engine) guardAcquire(s *State, a *Addr, in ssa.Instruction) {
 			}
 			for _, lf := range e.leaves(ft) {
 				name, sortS := e.heapNameField(g.Struct, "."+f, lf.Path), "(Array Int "+lf.Sort+")"
-				h := e.heapGet(s, name, sortS)
 				nv := e.declare(s, "guarded_"+f, lf.Sort)
-				e.heapSet(s, name, sortS, app("store", h, a.Base, nv))
+				e.interfere(s, name, sortS, a.Base, nv)
 			}
 			fv := e.load(s, &Addr{K: AField, Base: a.Base, SKey: g.Struct, Path: "." + f, T: ft}, nil)
 			if mt, ok := ft.Underlying().(*types.Map); ok {
-				e.havocMapAt(s, mt, fv.L[0])
+				e.interfereMapAt(s, mt, fv.L[0])
 			}
 		}
 		e.assumeGuardInv(s, g, a, st)
